@@ -452,7 +452,7 @@ func hopPredicate(cond ssa.Value, depth int) (ssa.Value, bool) {
 		if strings.HasSuffix(CalleeName(x.Common()), "/server.isHopByHopHeader") {
 			return PArgs(&x.Call)[0], true
 		}
-		if h, ok := x.Call.Value.(*ssa.Function); ok && IsNewHelper(h) && depth < 3 {
+		if h, ok := calleeFn(x.Call.Value); ok && IsNewHelper(h) && depth < 3 {
 			if rs := helperResults(x, 0); len(rs) == 1 {
 				if inner, ok := hopPredicate(rs[0], depth+1); ok {
 					v := inner
